@@ -64,7 +64,7 @@ func c13Run(cs c13Case) (fs []F) {
 	}
 	fill(fb2, 50)
 	for i := 0; i < fb.Len(); i++ {
-		if v := fb.Sample(i).Tok(); v != int64(1+i) {
+		if v := fb.Sample(i).Tok(); v != tk(int64(1+i)) {
 			fail("shared", "stamping the second allocation changed sample %d of the first to %v", i, v)
 			return
 		}
@@ -76,10 +76,10 @@ func init() {
 	core.Register(&core.Prop{
 		ID: "C13", Level: "exploration", Design: "§5 C13",
 		Run: func(c *core.Ctx) {
-			chans := []int{1, 2, 3, 4, 5, 6, 7, 8, 16, 32, 64}
-			caps := []int{0, 1, 2, 3, 4, 5, 6, 7, 8, 63, 64, 65, 1000, 4096}
+			chans := []int{1, 2, 3, 4, 5, 6, 7, 8, 9, 16, 32, 64, 65, 100}
+			caps := []int{0, 1, 2, 3, 4, 5, 6, 7, 8, 63, 64, 65, 1000, 1025, 4096, 20000}
 			if c.Quick() {
-				caps = []int{0, 1, 2, 3, 4, 5, 6, 7, 8, 63, 64, 65, 1000}
+				caps = []int{0, 1, 2, 3, 4, 5, 6, 7, 8, 63, 64, 65, 1000, 1025}
 			}
 			var cases []c13Case
 			for _, ty := range dyn.Types {
@@ -99,7 +99,7 @@ func init() {
 					}
 				}
 				// ordered pairs of allocations from a reduced shape set
-				shapes := [][3]int{{1, 0, 1}, {1, 1, 1}, {2, 1, 2}, {3, 2, 2}, {1, 0, 0}, {2, 0, 3}, {8, 4, 4}}
+				shapes := [][3]int{{1, 0, 1}, {1, 1, 1}, {2, 1, 2}, {3, 2, 2}, {1, 0, 0}, {2, 0, 3}, {8, 4, 4}, {2, 100, 700}, {1, 0, 5000}, {9, 1, 2}}
 				for _, a := range shapes {
 					for _, b := range shapes {
 						cases = append(cases, c13Case{Type: ty.Name, C: a[0], L: a[1], K: a[2], C2: b[0], L2: b[1], K2: b[2]})
@@ -110,10 +110,38 @@ func init() {
 				cs := cases[i]
 				c.Check(cs, cs.K > 0, c13Run(cs))
 			})
+			// many allocations in a row (a counter, a recycled arena): every one fresh and independent of the
+			// ones still alive; sequential on purpose
+			for _, t := range []int{dyn.Int8, dyn.Float64, dyn.MyInt16ID()} {
+				var alive []dyn.Buf
+				for k := 0; k < 600; k++ {
+					cs := c13Case{Type: tn(t), C: 1 + k%3, L: k % 5, K: 4 + k%7}
+					if fs := c13Run(cs); len(fs) > 0 {
+						c.Fail(cs, fs...)
+						break
+					}
+					b := dyn.Alloc(t, al(cs.C, cs.L, cs.K))
+					fill(full(b), int64(1+k%100))
+					alive = append(alive, b)
+					if k%50 == 49 {
+						for j, a := range alive {
+							fb := full(a)
+							want := int64(1 + j%100)
+							for q := 0; q < fb.Len(); q++ {
+								if g := fb.Sample(q).Tok(); g != tk(want+int64(q)) {
+									c.Fail(cs, core.Failf("Alloc/shared/"+tn(t), "after %d allocations in a row, sample %d of allocation #%d reads %d, it was stamped %d: a later allocation shares its storage", k+1, q, j, g, want+int64(q)))
+									q = fb.Len()
+								}
+							}
+						}
+					}
+					c.Eval(1, 1)
+				}
+			}
 			c.Sample(cases[0])
 			c.Sample(cases[len(cases)/2])
 			c.Sample(cases[len(cases)-1])
-			c.Set("rule", "every (element type in 13 built-in + 13 named) x C in {1..8,16,32,64} x K in {0..8,63,64,65,1000[,4096]} x L (all L<=K for K<=8, else {0,1,K-1,K}), plus all ordered pairs of 7 shapes per type; a case is non-trivial when K>0 (there is storage to inspect); cases are distinct by construction (each tuple enumerated once)")
+			c.Set("rule", "every (element type in 13 built-in + 13 named) x C in {1..9,16,32,64,65,100} x K in {0..8,63,64,65,1000,1025[,4096,20000]} x L (all L<=K for K<=8, else {0,1,K-1,K}), plus all ordered pairs of 10 shapes per type, plus 600 allocations in a row kept alive and re-inspected; a case is non-trivial when K>0 (there is storage to inspect); cases are distinct by construction (each tuple enumerated once)")
 			c.Set("types", len(dyn.Types))
 			c.Assume("the full capacity is inspected through Slice(0,Capacity), whose own correctness is C02's subject", "linux/amd64 only")
 		},
